@@ -279,3 +279,9 @@ def run(ctx, R):
 
         rec(h["body"], [])
     R.floor("division-like operations", n_div, 10)
+
+    # ---- RF1: operand order is preserved in every representation pair of the non-commutative ops ----
+    n_ord = 0
+    for fn in ("idiv", "modulus", "remainder", "int_pow", "max", "min"):
+        n_ord += repo.operand_order_obligations(F, F.find("machine::arithmetic_ops::" + fn), R, "C01:operand-order:" + fn)
+    R.floor("ordered operand sites in integer ops", n_ord, 12)
